@@ -453,6 +453,9 @@ class NMAP(Application, discriminator="nmap"):
         :return: True if the payload was successfully processed, False otherwise.
         :rtype: bool
         """
+        if not super().receive(payload=payload, session_id=session_id, **kwargs):
+            return False
+
         if isinstance(payload, PortScanPayload):
             if payload.request:
                 self._process_port_scan_request(payload=payload, session_id=session_id)
